@@ -1,6 +1,7 @@
 // ndjson trace writer + forked execution of one run so that aborts, sanitizer reports and hangs become
 // trace events instead of truncated traces.
 #pragma once
+#include <execinfo.h>
 #include <fcntl.h>
 #include <signal.h>
 #include <sys/wait.h>
@@ -45,6 +46,34 @@ inline Value ev(const char *name) {
   return v;
 }
 
+static int g_run = -1;
+static const char *g_scen = "";
+
+// SIGALRM in the child: the wall-clock budget is exhausted.  Log where the call is stuck (function names of the
+// innermost library frames) so that a hang can be told apart from another hang, then leave.
+inline void onAlarm(int) {
+  void *frames[48];
+  int n = backtrace(frames, 48);
+  char **syms = backtrace_symbols(frames, n);
+  std::string stack;
+  int kept = 0;
+  for (int i = 0; i < n && kept < 6; ++i) {
+    std::string sline = syms ? syms[i] : "";
+    size_t a = sline.find("(_ZN");
+    if (a == std::string::npos) continue;
+    size_t b = sline.find_first_of("+)", a);
+    std::string name = sline.substr(a + 1, b == std::string::npos ? std::string::npos : b - a - 1);
+    if (name.find("coloquinte") == std::string::npos && name.find("Transportation") == std::string::npos) continue;
+    stack += name + " ";
+    ++kept;
+  }
+  Value v = ev("Timeout");
+  const char *hang = stack.find("TransportationSuccessiveShortestPath") != std::string::npos ? "transport-ssp" : "other";
+  v.set("run", g_run).set("scen", g_scen).set("stderr", stack).set("kind", "alarm").set("hang", hang);
+  emit(v);
+  _exit(4);
+}
+
 inline void onTerminate() {
   Value v = ev("Abort");
   v.set("kind", "terminate");
@@ -85,6 +114,9 @@ inline bool forked(int run, int timeoutSec, const std::string &errPath, const st
   }
   if (pid == 0) {
     std::set_terminate(onTerminate);
+    g_run = run;
+    g_scen = scen;
+    signal(SIGALRM, onAlarm);
     int dn = ::open("/dev/null", O_WRONLY);
     if (dn >= 0) dup2(dn, 1);
     int ef = ::open(errPath.c_str(), O_WRONLY | O_CREAT | O_TRUNC, 0644);
@@ -100,11 +132,12 @@ inline bool forked(int run, int timeoutSec, const std::string &errPath, const st
   Value v;
   if (WIFSIGNALED(status) && WTERMSIG(status) == SIGALRM) {
     v = ev("Timeout");
+    v.set("hang", "unknown");
   } else if (WIFEXITED(status) && (WEXITSTATUS(status) == 97 || WEXITSTATUS(status) == 98 || WEXITSTATUS(status) == 96)) {
     v = ev("Sanitizer");
     v.set("kind", WEXITSTATUS(status) == 97 ? "asan" : WEXITSTATUS(status) == 98 ? "ubsan" : "tsan");
-  } else if (WIFEXITED(status) && WEXITSTATUS(status) == 3) {
-    return false;  // terminate handler already logged
+  } else if (WIFEXITED(status) && (WEXITSTATUS(status) == 3 || WEXITSTATUS(status) == 4)) {
+    return false;  // terminate / alarm handler already logged
   } else if (WIFEXITED(status) && WEXITSTATUS(status) == 2) {
     v = ev("HarnessError");
   } else {
